@@ -239,6 +239,34 @@ pub fn main_thread_panicked(eng: &Engine) -> Option<String> {
 /// lines: the text lines to send; eof_after: Some(j) = close stdin after j lines and
 /// expect exit; None = send all, `stop`, `isready`, then `quit`.
 pub fn run_session(ctx: &Ctx, lines: &[String], eof_after: Option<usize>, raw_tail: Option<&[u8]>, rep: &mut Report) -> Result<(), Violation> {
+    match run_session_once(ctx, lines, eof_after, raw_tail, rep, Duration::from_secs(3)) {
+        Ok(()) => Ok(()),
+        Err(v) => {
+            // A verdict that rests on nothing but the 3 s allowance (engine alive, silent, no
+            // panic, no flood) is confirmed before it is reported: the same session is run again,
+            // twice, with 20 s.  A real wedge is still there; a process that was merely starved
+            // of CPU for 3 s on a loaded machine is not.
+            let pure_timeout = v.sig == "quit/no-exit" || v.sig == "eof/no-exit/hung" || v.sig.starts_with("survive/hung/");
+            if !pure_timeout {
+                return Err(v);
+            }
+            let mut last = v;
+            for _ in 0..2 {
+                let mut scratch = Report::new();
+                match run_session_once(ctx, lines, eof_after, raw_tail, &mut scratch, Duration::from_secs(20)) {
+                    Ok(()) => {
+                        rep.class("timeout-not-reproduced-with-20s-allowance(machine load; not a violation)");
+                        return Ok(());
+                    }
+                    Err(v2) => last = v2,
+                }
+            }
+            Err(last)
+        }
+    }
+}
+
+fn run_session_once(ctx: &Ctx, lines: &[String], eof_after: Option<usize>, raw_tail: Option<&[u8]>, rep: &mut Report, allow: Duration) -> Result<(), Violation> {
     let mut eng = match Engine::spawn(&ctx.engine, &[]) {
         Ok(e) => e,
         Err(e) => {
@@ -277,11 +305,11 @@ pub fn run_session(ctx: &Ctx, lines: &[String], eof_after: Option<usize>, raw_ta
     };
     if eof_after.is_some() {
         eng.close_stdin();
-        match eng.wait_exit(Duration::from_secs(3)) {
+        match eng.wait_exit(allow) {
             Some(_) => {}
             None => {
                 let spinning = eng.stderr_bytes > 100_000;
-                return Err(fail("eof", format!("eof/no-exit/{}", if spinning { "spinning" } else { "hung" }), format!("stdin closed after {:?}: the engine did not terminate within 3 s ({} bytes on stderr)", shown.get(n_send.wrapping_sub(1)), eng.stderr_bytes), &eng));
+                return Err(fail("eof", format!("eof/no-exit/{}", if spinning { "spinning" } else { "hung" }), format!("stdin closed after {:?}: the engine did not terminate within {} s ({} bytes on stderr)", shown.get(n_send.wrapping_sub(1)), allow.as_secs(), eng.stderr_bytes), &eng));
             }
         }
         if let Some(p) = main_thread_panicked(&eng) {
@@ -292,7 +320,7 @@ pub fn run_session(ctx: &Ctx, lines: &[String], eof_after: Option<usize>, raw_ta
     }
     // a GUI would stop a running search before asking for readiness; liveness is asserted either way
     eng.send("stop");
-    let ok = eng.ready(Duration::from_secs(3));
+    let ok = eng.ready(allow);
     if !ok {
         let died = eng.try_status();
         let mp = main_thread_panicked(&eng);
@@ -306,19 +334,19 @@ pub fn run_session(ctx: &Ctx, lines: &[String], eof_after: Option<usize>, raw_ta
             _ => "engine alive but silent".to_string(),
         };
         let kind = if mp.is_some() { "main-panic" } else if died.is_some() { "exited" } else { "hung" };
-        return Err(fail("survive", format!("survive/{kind}/{culprit}"), format!("after the session no readyok within 3 s: {what}"), &eng));
+        return Err(fail("survive", format!("survive/{kind}/{culprit}"), format!("after the session no readyok within {} s: {what}", allow.as_secs()), &eng));
     }
     if let Some(p) = main_thread_panicked(&eng) {
         return Err(fail("survive", format!("survive/main-panic/{}", cmd_class(&last_cmd)), format!("main thread panicked: {p}"), &eng));
     }
     eng.send("quit");
-    match eng.wait_exit(Duration::from_secs(3)) {
+    match eng.wait_exit(allow) {
         Some(st) => {
             if !st.success() {
                 return Err(fail("quit", "quit/nonzero-status".into(), format!("quit ended the engine with {st}"), &eng));
             }
         }
-        None => return Err(fail("quit", "quit/no-exit".into(), "quit did not terminate the engine within 3 s".into(), &eng)),
+        None => return Err(fail("quit", "quit/no-exit".into(), format!("quit did not terminate the engine within {} s", allow.as_secs()), &eng)),
     }
     Ok(())
 }
@@ -475,5 +503,5 @@ pub fn replay(ctx: &Ctx, case: &Value) -> Report {
 }
 
 pub const LEVEL: &str = "exploration";
-pub const RULE: &str = "sessions of 1..25 lines against the real engine binary, each line drawn from a grammar over the UCI vocabulary: the eight commands with well-formed arguments (go budgets that end by themselves), go keywords with the value dropped / duplicated / reordered / replaced by junk (negative, 1e3, 0x10, 40-digit, words, empty, non-ASCII digits), go flags in odd places, setoption with name/value in every order and multiplicity, position with unknown kind / missing 'moves' / empty or illegal or malformed move lists (FEN arguments are always valid FEN, in 6-field and in 4-field form), unknown words, blank lines, tabs, 10 kB lines, non-ASCII text; plus fixed cases: end-of-input at the start, after a line, in the middle of a line, and bytes that are not valid UTF-8. Plus an in-process layer (hook H4): token soups over the vocabulary that never start a search, fed to a session object; any panic is what would have killed the real main thread. Plus a text-mutation layer (fuzzuci.rs, in-process): generator sessions as raw text with 0..6 blind byte/token mutations, every line that does not carry an invalid FEN argument is fed (lines with a go/quit word only through the parser, hook H4b) and must not panic; the thorough tier adds a coverage-guided libFuzzer campaign (target fuzz_uci) over the same oracle. Ending of the process sessions: stop + isready (readyok within 3 s, main thread not panicked) + quit (exit status 0 within 3 s), or end-of-input after a generated line (exit within 3 s). A search-thread panic is C09's subject and ignored here. Non-trivial = session containing at least one malformed line; distinct by (text, ending).";
+pub const RULE: &str = "sessions of 1..25 lines against the real engine binary, each line drawn from a grammar over the UCI vocabulary: the eight commands with well-formed arguments (go budgets that end by themselves), go keywords with the value dropped / duplicated / reordered / replaced by junk (negative, 1e3, 0x10, 40-digit, words, empty, non-ASCII digits), go flags in odd places, setoption with name/value in every order and multiplicity, position with unknown kind / missing 'moves' / empty or illegal or malformed move lists (FEN arguments are always valid FEN, in 6-field and in 4-field form), unknown words, blank lines, tabs, 10 kB lines, non-ASCII text; plus fixed cases: end-of-input at the start, after a line, in the middle of a line, and bytes that are not valid UTF-8. Plus an in-process layer (hook H4): token soups over the vocabulary that never start a search, fed to a session object; any panic is what would have killed the real main thread. Plus a text-mutation layer (fuzzuci.rs, in-process): generator sessions as raw text with 0..6 blind byte/token mutations, every line that does not carry an invalid FEN argument is fed (lines with a go/quit word only through the parser, hook H4b) and must not panic; the thorough tier adds a coverage-guided libFuzzer campaign (target fuzz_uci) over the same oracle. Ending of the process sessions: stop + isready (readyok within 3 s, main thread not panicked) + quit (exit status 0 within 3 s), or end-of-input after a generated line (exit within 3 s); a verdict that rests on the 3 s allowance alone (engine alive and silent, no panic, no output flood) is confirmed by running the same session again, twice, with 20 s, and reported only if it is still there. A search-thread panic is C09's subject and ignored here. Non-trivial = session containing at least one malformed line; distinct by (text, ending).";
 pub const ASSUMPTIONS: &[&str] = &["FEN arguments are valid (the statement's assumption)", "3 s stands in for 'promptly'; 8 engine processes run concurrently"];
